@@ -309,8 +309,10 @@ def pack(n, fields, family, per=60, passes=None, options=True, **kw):
     structs = []
     for k, c in enumerate(range(0, len(fields), per)):
         fs = [Field(**{**f.__dict__}) for f in fields[c:c + per]]
-        for f in fs:
+        for j, f in enumerate(fs):
             f.name = ''
+            # every fifth field carries doc comments (they are forwarded to the generated accessors and builder steps)
+            f.doc = ((j + k) % 5 == 3)
         extra = dict(kw)
         if options and 'default' not in extra and 'debug' not in extra:
             opt = k % 4
@@ -326,6 +328,8 @@ def pack(n, fields, family, per=60, passes=None, options=True, **kw):
             if d == 1:
                 extra['derives'] = '#[derive(PartialEq, Eq)]'
             elif d == 2 and not extra.get('debug'):
-                extra['derives'] = '#[derive(Debug, PartialEq)]' if all(f.kind in 'bunieo' for f in fs) else '#[derive(PartialEq)]' 
+                extra['derives'] = '#[derive(Debug, PartialEq)]' if all(f.kind in 'bunieo' for f in fs) else '#[derive(PartialEq)]'
+            if k % 7 == 5:
+                extra['derives'] = (extra.get('derives', '') + ' #[allow(dead_code)] #[cfg(all())]').strip()
         structs.append(Struct(n, fs, family=family, passes=list(passes or []), **extra))
     return structs
